@@ -1101,6 +1101,13 @@ class Exec:
         if h is None:
             raise Unsupported('no stub for %s at %s' % (name, pos))
         out = h(self, st, args, {'name': name, 'pos': pos, 'ins': ins})
+        if isinstance(out, tuple) and len(out) == 4 and out[0] == 'tailcall':
+            post = out[3]
+            caller = fr
+
+            def cont(st2, val, ret_to=ret_to):
+                self.deliver(st2, st2.frames[-1], ret_to, post(val))
+            return self.invoke_value(st, fr, ('static', out[1]), out[2], ('cont', cont), pos, ins)
         if isinstance(out, tuple) and len(out) == 3 and out[0] == 'tailcall':
             # the stub delegates to a repo function (e.g. json.Marshal -> MarshalJSON method)
             return self.invoke_value(st, fr, ('static', out[1]), out[2], ret_to, pos, ins)
